@@ -400,6 +400,9 @@ impl PB<'_> {
             }
             return self.op1(3, &[c, x, y]);
         }
+        if self.cfg.has(fam::GUARD) && self.cfg.has(fam::BLS) && self.guard_depth == 0 && self.rng.chance(1, 6) {
+            return self.guard_then_reuse();
+        }
         if self.cfg.has(fam::GUARD) && self.guard_depth < self.cfg.guard_nesting.max(1) && self.rng.chance(1, 6) {
             return self.guard(d);
         }
@@ -944,6 +947,37 @@ impl PB<'_> {
                 self.op1(16, &[cat, x])
             }
         }
+    }
+
+    /// The allocator's validated-point cache is the one piece of state an operator leaves behind.
+    /// This shape runs a point operator inside a guard (whose allocations are rolled back at
+    /// exit) and then the same operator on a freshly computed blob of the same size:
+    /// (c (softfork COST EXT (q . (OP P)) 1) (c (OP BLOB) ()))
+    fn guard_then_reuse(&mut self) -> u32 {
+        let (g1, g2) = bls_points();
+        let (code, len): (u8, usize) = *self.rng.pick(&[(51u8, 48usize), (55, 96), (51, 48), (29, 48), (49, 48), (52, 96)]);
+        let p = if len == 48 { self.rng.pick(g1).to_vec() } else { self.rng.pick(g2).to_vec() };
+        let pa = self.atom(&p);
+        let qp = self.q(pa);
+        let inner = self.op1(code, &[qp]);
+        self.guard_depth += 1;
+        let placeholder: u64 = (1u64 << 57) + self.guard_atoms.len() as u64;
+        let cost_atom = self.atom(&int_bytes(placeholder as i128));
+        self.guard_atoms.push((cost_atom, 1));
+        self.guard_depth -= 1;
+        let qcost = self.q(cost_atom);
+        let extv = self.rng.below(2) as i128;
+        let ext = self.atom(&int_bytes(extv));
+        let qext = self.q(ext);
+        let qinner = self.q(inner);
+        let one = self.atom(&[1]);
+        let g = self.op1(36, &[qcost, qext, qinner, one]);
+        let blob = self.computed_point_blob(len);
+        let again = self.op1(code, &[blob]);
+        let nil = self.atom(&[]);
+        let qnil = self.q(nil);
+        let tail = self.op1(4, &[again, qnil]);
+        self.op1(4, &[g, tail])
     }
 
     fn guard(&mut self, d: u32) -> u32 {
